@@ -301,7 +301,7 @@ def run(chk):
             chk.leanchecker(["MambaVerif.Props.C09"])
     if not ok:
         return
-    scope_common.run_scope(chk, ["use"], "Undefined", 60 if thorough else 30, 6 if thorough else 4)
+    scope_common.run_scope(chk, ["use"], "Undefined", 400 if thorough else 30, 8 if thorough else 4)
     ctor_correspondence(chk, 6000 if thorough else 800)
     cases = matrix()
     if not thorough:
